@@ -47,6 +47,47 @@ func nonEmptyAtom(info *types.Info, cnd ast.Expr, pol int, v types.Object) bool 
 	return false
 }
 
+// nonEmptyAtomAt: nonEmptyAtom, also through a local with a single definition `l := len(v) − c` that is still current at the
+// test (v not reassigned since): `l ≥ 0` with c = 1 is `len(v) ≥ 1`.
+func nonEmptyAtomAt(g *FG, at *GNode, cnd ast.Expr, pol int, v types.Object) bool {
+	info := g.Info
+	if nonEmptyAtom(info, cnd, pol, v) {
+		return true
+	}
+	l, op, r, ok := cmpNorm(cnd, pol)
+	if !ok {
+		return false
+	}
+	shifted := func(e ast.Expr) (int64, bool) {
+		id, isID := unparen(e).(*ast.Ident)
+		if !isID {
+			return 0, false
+		}
+		def := g.LocalDef(info.Uses[id])
+		if def == nil || g.staleAt(def, at) {
+			return 0, false
+		}
+		be, isB := unparen(def).(*ast.BinaryExpr)
+		if !isB || be.Op != token.SUB || !isLenOf(info, be.X, func(x ast.Expr) bool { return sameVar(info, x, v) }) {
+			return 0, false
+		}
+		return constInt(info, be.Y)
+	}
+	if cshift, isL := shifted(l); isL {
+		if k, isC := constInt(info, r); isC {
+			k += cshift
+			return (op == token.GTR && k >= 0) || (op == token.GEQ && k >= 1) || (op == token.NEQ && k == 0)
+		}
+	}
+	if cshift, isR := shifted(r); isR {
+		if k, isC := constInt(info, l); isC {
+			k += cshift
+			return (op == token.LSS && k >= 0) || (op == token.LEQ && k >= 1) || (op == token.NEQ && k == 0)
+		}
+	}
+	return false
+}
+
 func c18(c *Ctx) {
 	px := c.Index(promMod, promPkg)
 	if px == nil {
@@ -115,7 +156,7 @@ func c18(c *Ctx) {
 						}
 						est2 := est
 						condAtoms(be.X, 1, func(a ast.Expr, pol int) {
-							if nonEmptyAtom(info, a, pol, v) {
+							if nonEmptyAtomAt(g, x, a, pol, v) {
 								est2 = true
 							}
 						})
@@ -133,7 +174,7 @@ func c18(c *Ctx) {
 			// (b) flow: fact holds on every path, killed by assignments to v
 			if !guarded && x != nil {
 				facts := g.MustFlow(nil, func(e *GEdge) []string {
-					if edgeImplies(e, func(cnd ast.Expr, pol int) bool { return nonEmptyAtom(info, cnd, pol, v) }) {
+					if edgeImplies(e, func(cnd ast.Expr, pol int) bool { return nonEmptyAtomAt(g, e.From, cnd, pol, v) }) {
 						return []string{"ne"}
 					}
 					return nil
